@@ -104,6 +104,20 @@ Proof. unfold deg2rad, rad2deg. field. apply PI_neq0. Qed.
 Lemma rad2deg_deg2rad x : rad2deg (deg2rad x) = x.
 Proof. unfold deg2rad, rad2deg. field. apply PI_neq0. Qed.
 
+(* Bring the arguments of sqrt / sin / cos / atan / Rinv to ring normal form on both sides of the goal, so that
+   two spellings of the same polynomial argument (a * b vs b * a, a - b vs a + - b, x * x vs x ^ 2) become the same
+   atom for a closing `ring` / `field`.  Proofs that end with `eq_mod_ring` do not depend on the order in which the
+   source writes its operands. *)
+Ltac norm_args :=
+  repeat match goal with
+         | |- context [sqrt ?a] => progress (ring_simplify a)
+         | |- context [sin ?a] => progress (ring_simplify a)
+         | |- context [cos ?a] => progress (ring_simplify a)
+         | |- context [atan ?a] => progress (ring_simplify a)
+         | |- context [/ ?a] => progress (ring_simplify a)
+         end.
+Ltac eq_mod_ring := first [ reflexivity | ring | (unfold Rdiv; norm_args; first [reflexivity | ring]) ].
+
 (* normalise x * x and x * x * x to powers (the code may write either) *)
 Ltac sq_norm :=
   repeat match goal with
